@@ -28,6 +28,8 @@ import time
 import traceback
 
 VERIF = os.path.dirname(os.path.dirname(os.path.abspath(__file__)))
+# evidence / replay output root (the mutant self-test points this elsewhere so /verif stays clean)
+OUT = os.environ.get("VERIF_OUT_DIR") or VERIF
 
 
 class Result:
@@ -262,8 +264,8 @@ def write_evidence(mod, camp, violations, known_seen, wall):
         "wall_s": round(wall, 2),
         "violations": violations,
     }
-    os.makedirs(os.path.join(VERIF, "evidence"), exist_ok=True)
-    p = os.path.join(VERIF, "evidence", mod.PID + ".json")
+    os.makedirs(os.path.join(OUT, "evidence"), exist_ok=True)
+    p = os.path.join(OUT, "evidence", mod.PID + ".json")
     tmp = p + ".tmp%d" % os.getpid()
     with open(tmp, "w") as f:
         json.dump(ev, f, indent=1, default=str)
@@ -287,9 +289,9 @@ def finish(mod, camp):
             continue
         small = _shrink(mod, case, sig, shrink_budget)
         # re-classify the shrunk case: it must not have drifted into a known finding
-        os.makedirs(os.path.join(VERIF, "replay", mod.PID), exist_ok=True)
+        os.makedirs(os.path.join(OUT, "replay", mod.PID), exist_ok=True)
         safe = "".join(ch if ch.isalnum() or ch in "-_." else "_" for ch in sig)[:80]
-        path = os.path.join(VERIF, "replay", mod.PID, "%s-%s.json" % (safe, digest(small)[:10]))
+        path = os.path.join(OUT, "replay", mod.PID, "%s-%s.json" % (safe, digest(small)[:10]))
         with open(path, "w") as f:
             json.dump({"property": mod.PID, "signature": sig, "detail": detail, "case": small}, f, indent=1, default=str)
         violations += 1
